@@ -149,7 +149,7 @@ def run(ctx):
     phfac = None
     worst = dict(dm=0.0, eig=0.0, freq=0.0)
     stats = dict(short_range=0, series_differ=0, comm_q=0, probe_q=0, random_q=0)
-    reports, jobs = [], []
+    reports, jobs, layouts_logged = [], [], []
     rworst = dict(dm=0.0, eig=0.0, freq=0.0, vec=0.0)
     by_geom = {}
     for ev in events:
@@ -256,6 +256,16 @@ def run(ctx):
                 ctx.count((gi, r_layout, r_store, dmh.bootstrap.VARIANT, "options-sweep"), n=8)
             except Exception as e:
                 ctx.violation("report:raises", "run_qpoints option sweep raised %r" % (e,), where)
+            # the same VALUES handed in under every memory layout / carrier / route (spec/DynMatLayout.tla)
+            try:
+                lq, lexp = rq[:3], rexp[:3]
+                lruns, lw, lbad = rpt.layout_sweep(ph, fc, lq, lexp, rscale)
+                layouts_logged.append(dict(id=len(layouts_logged), fclayout=r_layout, runs=lruns,
+                                           _where=dict(where, q=[q.tolist() for q in lq]), _bad=lbad))
+                rworst["layout_dm"] = max(rworst.get("layout_dm", 0.0), lw)
+                ctx.count((gi, r_layout, r_store, "memory-layout-sweep"), n=len(lruns))
+            except AssertionError as e:
+                raise dmh.tlcmod.MachineryError("layout constructions do not have the advertised flags: %r" % (e,))
             uc = pub.orc.unitcell()
             jobs.append(dict(id=len(jobs), symbols=list(uc.symbols), scaled_positions=np.array(uc.scaled_positions),
                              cell=np.array(uc.cell), masses=list(uc.masses), S=S, P=dmh.pmat(P), dense=(r_store == "dense"),
@@ -266,6 +276,7 @@ def run(ctx):
                             commensurate_q=len(anyp.out["commM"]), q_example=qarr[len(comm)].tolist()))
     ctx.traces += len(by_geom) * 4
     judge_reports(ctx, reports, jobs, rworst)
+    judge_layouts(ctx, layouts_logged, rworst)
     stats["chiral_cases_nonsymmetric_blocks"] = sum(1 for e in events if e["fck"]["kind"] == "chiral")
     stats["negative_eigenvalue_cases"] = sum(1 for e in events if e["scale"]["s"] < 0) // 2
     ctx.extra["replay"] = stats
@@ -359,3 +370,49 @@ def judge_reports(ctx, reports, jobs, rworst):
             raise dmh.tlcmod.MachineryError("options sweep ran on one build only: %s" % builds)
         if max(rworst["dm"], rworst["eig"]) > 1e-3 * rpt.TOL_DM or rworst["vec"] > 1e-3 * rpt.TOL_VEC:
             raise dmh.tlcmod.MachineryError("margin: options sweep error %s within 1e3 of tolerance" % rworst)
+
+
+LAYOUT_INVS = ["ImplAllLayoutsLogged", "ImplAccepted", "ImplDIsTheSeriesOfTheValues", "ImplDIsAFunctionOfValuesOnly",
+               "ConformsLayoutReport"]
+
+
+def judge_layouts(ctx, sessions, rworst):
+    """TLC on spec/DynMatLayout.tla: reported D is a function of the values handed in only."""
+    if not sessions:
+        return
+    ctx.traces += len(sessions)
+    recs = ["[id |-> %d, fclayout |-> %s, runs |-> {%s}]" % (r["id"], to_tla(r["fclayout"]), ", ".join(to_tla(u) for u in r["runs"]))
+            for r in sessions]
+    mc = "---- MODULE MC_DynMatLayout ----\nEXTENDS DynMatLayout\nMCSessions == {%s}\n====\n" % ",\n".join(recs)
+    cfg = "SPECIFICATION Spec\nCONSTANTS\n Sessions <- MCSessions\nCHECK_DEADLOCK FALSE\n" + \
+          "".join("INVARIANT %s\n" % i for i in LAYOUT_INVS)
+    res = ctx.tlc("MC_DynMatLayout", cfg_text=cfg, extra_files={"MC_DynMatLayout.tla": mc}, requirement=False,
+                  extra_args=("-continue",), workers=2)
+    byid = {r["id"]: r for r in sessions}
+    allbad = [dict(r["_where"], bad_runs=r["_bad"][:3]) for r in sessions if r["_bad"]]
+    for name, tr in res.violations:
+        st = tr[-1][1] if tr else {}
+        w = byid.get(st.get("r", {}).get("id"), None) or next((r for r in sessions if r["_bad"]), sessions[0])
+        cur = st.get("cur") if isinstance(st.get("cur"), dict) and "mem" in st.get("cur", {}) else \
+            ({k: v for k, v in w["_bad"][0].items() if k not in ("returned_D_first_q",)} if w["_bad"] else None)
+        # token classes of the session: which hand-ins gave a different matrix
+        odd = {}
+        for u in w["runs"]:
+            odd.setdefault((u["kern"], u["vclass"]), {}).setdefault(u["dtok"], []).append("%s/%s/%s" % (u["arg"], u["route"], u["mem"]))
+        split = {"%s,%s" % k: v for k, v in odd.items() if len(v) > 1}
+        ctx.violation("layout:" + name,
+                      "D depends on more than the VALUES handed in: %s fails (TLC); e.g. %s" % (name, cur),
+                      dict(invariant=name, session=w["_where"], fc_layout=w["fclayout"], logged_run=cur,
+                           differing_token_classes=split, failing_sessions=allbad[:4]))
+    if res.violated and not res.violations:
+        raise dmh.tlcmod.MachineryError("DynMatLayout: %s" % res.violated)
+    ctx.extra["memory_layout_sweep"] = dict(
+        sessions=len(sessions), runs=sum(len(r["runs"]) for r in sessions),
+        fc_layouts=sorted(set(r["fclayout"] for r in sessions)),
+        dimensions="fc: {C, F, transposed-owning, strided view, sub-buffer view, list, float32, float32-as-float64} x "
+                   "{Phonopy.force_constants=, DynamicalMatrix(), get_dynamical_matrix()} x {batch, C, Py}; "
+                   "q arrays {F, strided view, list}; masses {strided view, list, float32}",
+        float32_refused=sum(1 for r in sessions for u in r["runs"] if u["status"] == "refused"),
+        observed_max_error=rworst.get("layout_dm"))
+    if not ctx.violations and len(set(r["fclayout"] for r in sessions)) < 2:
+        raise dmh.tlcmod.MachineryError("vacuity: memory-layout sweep saw one force-constant layout only")
